@@ -880,14 +880,23 @@ class C07(PropBase):
                 "instant (exactly, +-1 ns) and are written in the three timestamp notations with offsets -23:59..+23:59; "
                 "pairs: source->report commodity, inverse, chains, other targets, self rates; shuffled file order; "
                 "lookup in {txn-time, last-price, given-time, none}; 14 boundary classes; non-trivial = at least one posting "
-                "is converted or the case is a boundary class; distinct = sha256 of the implementation case line")
+                "is converted or the case is a boundary class; distinct = sha256 of the implementation case line.  "
+                "Journal-level cases (jr:*, op run, about 30% of the cases): the same journals + price files through the "
+                "balance, register and balance-group reports (all lookup kinds, all 15 boundary classes, plus same-conv-key "
+                "= one transaction posting to one account in a source commodity and in the report commodity, and selector = "
+                "exact-name account selectors per report); report zone UTC or Etc/GMT+-N, all five group-by settings; "
+                "corpus: the journal of the Lean example (Props/C07b.lean Ex) under the three lookup kinds")
 
     def trusted_base(self):
         return super().trusted_base() + [
             "the model reads price entries as (timestamp token, base, rate, target) and resolves the token itself "
             "(Model/Time.lean resolveTs, fixed-offset journal zones); the price-file grammar (text -> token) is exercised on the "
             "implementation side only; the oracle uses the instant computed independently by the python renderer",
-            "rust_decimal multiplication outside the exact domain (model answers UNDEF, case skipped)"]
+            "rust_decimal multiplication outside the exact domain (model answers UNDEF, case skipped)",
+            "journal-level cases: the model's settings get the report commodity and the price-file commodities registered "
+            "(Priced.reportSettings = the commodity side of Settings::try_from / parse_price_entry, lax mode in the generated "
+            "cases); account selectors are exact-name (regex semantics are C11's); report zones are fixed offsets; the "
+            "register text is compared number-normalised as in C03, balance / group rows and the metadata block text-exact"]
 
     def assumptions(self):
         return ["price db entries have a non-empty base commodity (guaranteed by p_identifier; hypothesis of metadata_true)",
